@@ -186,9 +186,13 @@ def hygiene():
 
 # ------------------------------------------------------------------ implementation side
 
-def build_harness(race=False):
+_repo_ok = {}
+
+
+def build_harness(name, race=False):
+    """Build harness/cmd/<name> with -tags verif against /repo's working tree -> build/bin/hv-<name>."""
     hd = os.path.join(V, "harness")
-    out = os.path.join(BIN, "hv-race" if race else "hv")
+    out = os.path.join(BIN, "hv-%s%s" % (name, "-race" if race else ""))
     with Lock("go"):
         # the harness module always resolves hprose to /repo's working tree
         try:
@@ -198,76 +202,81 @@ def build_harness(race=False):
                 open(dst, "w").write(src)
         except OSError:
             pass
-        rc, o, e = sh(["go", "build", "-o", "/dev/null", "./..."], cwd=REPO, env=GOENV, timeout=1200)
-        if rc != 0:
-            raise EnvError("/repo does not compile: " + e[-3000:])
+        if "ok" not in _repo_ok:
+            rc, o, e = sh(["go", "build", "-o", "/dev/null", "./..."], cwd=REPO, env=GOENV, timeout=1200)
+            if rc != 0:
+                raise EnvError("/repo does not compile: " + e[-3000:])
+            _repo_ok["ok"] = True
         cmd = ["go", "build", "-tags", "verif", "-o", out]
         env = dict(GOENV)
         if race:
             cmd.insert(2, "-race")
             env["CGO_ENABLED"] = "1"
-        rc, o, e = sh(cmd + ["."], cwd=hd, env=env, timeout=1800)
+        rc, o, e = sh(cmd + ["./cmd/" + name], cwd=hd, env=env, timeout=1800)
         if rc != 0:
             # /repo compiles but the harness does not: an API the harness uses changed
-            raise EnvError("harness does not build against /repo: " + e[-3000:])
+            raise EnvError("harness %s does not build against /repo: %s" % (name, e[-3000:]))
     return out
 
 
-def build_modelrun():
-    out = os.path.join(BIN, "modelrun")
+def build_modelrun(name):
+    """Extract coq/Extract/<NAME>.v and link build/bin/modelrun-<name> (rebuilt when stale)."""
+    out = os.path.join(BIN, "modelrun-" + name)
     with Lock("coq"):
-        srcs = []
-        for d in ("coq/Model", "coq/Lib", "coq/Extract", "extract", "coq/Gen"):
+        srcs = [os.path.join(V, "coq", "Extract", name.upper() + ".v"),
+                os.path.join(V, "extract", "drv_%s.ml" % name),
+                os.path.join(V, "extract", "common.ml"), os.path.join(V, "extract", "main.ml"),
+                os.path.join(V, "extract", "build.sh")]
+        for d in ("coq/Model", "coq/Lib", "coq/Gen"):
             dd = os.path.join(V, d)
             if os.path.isdir(dd):
-                srcs += [os.path.join(dd, f) for f in os.listdir(dd) if f.endswith((".v", ".ml", ".sh"))]
+                srcs += [os.path.join(dd, f) for f in os.listdir(dd) if f.endswith(".v")]
         newest = max(os.path.getmtime(s) for s in srcs)
         if os.path.exists(out) and os.path.getmtime(out) >= newest:
             return out
-        # the extraction needs the compiled models
-        rc, o, e = sh([os.path.join(COQ, "mk.sh"), "-j16"] + model_targets(), timeout=3000)
+        # the extraction needs the compiled models it imports
+        imports = re.findall(r'(Model|Lib|Gen)\.([A-Za-z0-9_]+)', open(srcs[0]).read())
+        targets = sorted({"%s/%s.vo" % (d, f) for d, f in imports})
+        rc, o, e = sh([os.path.join(COQ, "mk.sh"), "-j16"] + targets, timeout=3000)
         if rc != 0:
             raise EnvError("model files do not compile: " + (o + e)[-3000:])
-        rc, o, e = sh([os.path.join(V, "extract", "build.sh")], timeout=1800)
+        rc, o, e = sh([os.path.join(V, "extract", "build.sh"), name], timeout=1800)
         if rc != 0:
             raise EnvError("extraction/driver build failed: " + (o + e)[-3000:])
     return out
 
 
-def model_targets():
-    t = []
-    for d in ("Lib", "Model", "Gen"):
-        dd = os.path.join(COQ, d)
-        if os.path.isdir(dd):
-            t += ["%s/%s" % (d, f[:-2] + ".vo") for f in sorted(os.listdir(dd)) if f.endswith(".v")]
-    return t
-
-
-def run_harness(runner, cases, timeout=3000, race=False, extra_env=None):
-    """cases: list of JSON-able dicts -> list of observation dicts (same order)."""
-    exe = os.path.join(BIN, "hv-race" if race else "hv")
+def run_harness(name, cases, timeout=3000, race=False, extra_env=None, args=()):
+    """cases: list of JSON-able dicts -> (rc, list of observation dicts, stderr)."""
+    exe = os.path.join(BIN, "hv-%s%s" % (name, "-race" if race else ""))
     inp = "".join(json.dumps(c, separators=(",", ":")) + "\n" for c in cases)
     env = dict(os.environ)
     if extra_env:
         env.update(extra_env)
-    p = subprocess.run([exe, runner], input=inp, stdout=subprocess.PIPE, stderr=subprocess.PIPE,
-                       text=True, timeout=timeout, env=env)
+    try:
+        p = subprocess.run([exe] + list(args), input=inp, stdout=subprocess.PIPE, stderr=subprocess.PIPE,
+                           text=True, timeout=timeout, env=env)
+        rc, so, se = p.returncode, p.stdout, p.stderr
+    except subprocess.TimeoutExpired as te:
+        rc = 124
+        so = te.stdout.decode() if isinstance(te.stdout, bytes) else (te.stdout or "")
+        se = "TIMEOUT after %ss" % timeout
     obs = []
-    for ln in p.stdout.split("\n"):
+    for ln in so.split("\n"):
         if ln.strip():
             try:
                 obs.append(json.loads(ln))
             except Exception:
                 pass
-    return p.returncode, obs, p.stderr
+    return rc, obs, se
 
 
-def run_model(runner, lines, timeout=3000):
-    exe = os.path.join(BIN, "modelrun")
-    p = subprocess.run([exe, runner], input="".join(l + "\n" for l in lines),
+def run_model(name, lines, timeout=3000):
+    exe = os.path.join(BIN, "modelrun-" + name)
+    p = subprocess.run([exe], input="".join(l + "\n" for l in lines),
                        stdout=subprocess.PIPE, stderr=subprocess.PIPE, text=True, timeout=timeout)
     if p.returncode != 0:
-        raise EnvError("modelrun %s failed: %s" % (runner, p.stderr[-2000:]))
+        raise EnvError("modelrun-%s failed: %s" % (name, p.stderr[-2000:]))
     out = p.stdout.split("\n")
     if out and out[-1] == "":
         out.pop()
